@@ -13,7 +13,16 @@ CLAIMS = {
 }
 NOT_YET = {}
 
+def load_claims():
+    import glob
+    for f in glob.glob(os.path.join(VERIF, "checks", "props", "*.claim.json")):
+        pid = os.path.basename(f).split(".")[0].upper()
+        c = json.load(open(f))
+        if os.path.exists(os.path.join(VERIF, "checks", "props", pid.lower() + ".py")):
+            CLAIMS[pid] = (c["text"], c["note"], c.get("ref", "§6 " + pid))
+
 def main():
+    load_claims()
     props = [json.loads(l) for l in open(os.path.join(VERIF, "properties.jsonl"))]
     checks, na = [], []
     for p in props:
